@@ -159,6 +159,15 @@ def gen_cases(ctx):
             root_td = dict(root_td, nest={"fromR": "R", "deep": {"dR": 1}})
         pk = {"a": {"recursive": True, "td": td("A"), "listed": False}, "a/sub": {"recursive": True, "td": td("S"), "listed": listed}, "b": {"recursive": False, "td": None, "listed": listed}}
         cases.append({"kind": "recleak", "i": 5000 + j, "root_td": root_td, "pk": pk, "order": ["a/sub", "a", "b"] if j % 2 else ["b", "a", "a/sub"]})
+    # fixed witnesses: maps nested two levels below template-data at the top level; a recursive package adds keys inside the inner map; one of its
+    # sub-packages is listed without data of its own (it inherits the inner map from the top level first, the recursive parent is merged in afterwards):
+    # nothing of that may become visible in the sibling package b or at the top level
+    for j, (listed, order) in enumerate(((False, ["a", "a/sub", "b", "c"]), (True, ["b", "a/sub", "a", "c"]), (False, ["c", "b", "a/sub", "a"]))):
+        root_td = {"kR": "vR", "nest": {"fromR": "R", "deep": {"dR": 1, "deeper": {"eR": 1}}}}
+        pk = {"a": {"recursive": True, "td": {"kA": "vA", "nest": {"fromA": "A", "deep": {"dA": 1, "deeper": {"eA": 1}}}}, "listed": False},
+              "a/sub": {"recursive": False, "td": None, "listed": listed}, "b": {"recursive": False, "td": None, "listed": listed},
+              "c": {"recursive": True, "td": {"nest": {"deep": {"deeper": {"eC": 1}}}}, "listed": False}}
+        cases.append({"kind": "recleak", "i": 5100 + j, "root_td": root_td, "pk": pk, "order": order})
     return cases
 
 
